@@ -250,14 +250,14 @@ type ghostCopy struct{ src, dst string }
 //@   property C14
 //@   inline
 
-// filepath.Dir undoes the last Join element of the savepoint file name (the directory part is
-// itself a Join result with a non-empty last element, hence clean). Assumed.
-//@ axiom dirOfSavepointFile
-//@   forall a string, b string
-//@   ensures filepath.Dir(filepath.Join(a, b, "job.savepoint")) == filepath.Join(a, b)
-
 // spFile: where a DKV file lives inside the savepoint directory dir.
 //@ define spFile(dir, file) := filepath.Join(dir, "dkv", ghostDirOf(file), ghostBaseOf(file))
+//@ define spFileR(dir, file) := dkvstorage.Join(dir, "dkv", ghostDirOf(file), ghostBaseOf(file))
+//@ func uriDir
+//@   property C14
+//@   trusted
+//@   pure
+//@   modifies nothing
 //@ define copied(fs, s, d) := exists(0, len(fs.copies), len(fs.copies)-1, func(ci_ int) bool { return fs.copies[ci_].src == s && fs.copies[ci_].dst == d })
 func ghostDirOf(uri string) string  { d, _ := path.Split(uri); return d }
 func ghostBaseOf(uri string) string { _, b := path.Split(uri); return b }
@@ -290,19 +290,20 @@ func ghostBaseOf(uri string) string { _, b := path.Split(uri); return b }
 //@   requires jobCheckpoint != nil && forall(0, len(jobCheckpoint.OperatorCheckpoints), func(o int) bool { return jobCheckpoint.OperatorCheckpoints[o] != nil })
 //@   modifies locations.StorageLocation.copies
 //@   ensures result == nil ==> forall(0, len(jobCheckpoint.OperatorCheckpoints), func(o int) bool {
-//@           return copied(fs, spFile(filepath.Dir(savepointURI), jobCheckpoint.OperatorCheckpoints[o].DkvFileUri), jobCheckpoint.OperatorCheckpoints[o].DkvFileUri) })
-//@   atcall Read: arg0 == spFile(filepath.Dir(savepointURI), opCkpt.DkvFileUri)
+//@           return copied(fs, spFileR(uriDir(savepointURI), jobCheckpoint.OperatorCheckpoints[o].DkvFileUri), jobCheckpoint.OperatorCheckpoints[o].DkvFileUri) })
+//@   atcall Read: arg0 == spFileR(uriDir(savepointURI), opCkpt.DkvFileUri)
 //@   loop 0:
-//@     invariant forall(0, idx_, func(o int) bool { return copied(fs, spFile(filepath.Dir(savepointURI), jobCheckpoint.OperatorCheckpoints[o].DkvFileUri), jobCheckpoint.OperatorCheckpoints[o].DkvFileUri) })
+//@     invariant forall(0, idx_, func(o int) bool { return copied(fs, spFileR(uriDir(savepointURI), jobCheckpoint.OperatorCheckpoints[o].DkvFileUri), jobCheckpoint.OperatorCheckpoints[o].DkvFileUri) })
 //@   loop 1:
-//@     invariant forall(0, idx0_, func(o int) bool { return copied(fs, spFile(filepath.Dir(savepointURI), jobCheckpoint.OperatorCheckpoints[o].DkvFileUri), jobCheckpoint.OperatorCheckpoints[o].DkvFileUri) })
+//@     invariant forall(0, idx0_, func(o int) bool { return copied(fs, spFileR(uriDir(savepointURI), jobCheckpoint.OperatorCheckpoints[o].DkvFileUri), jobCheckpoint.OperatorCheckpoints[o].DkvFileUri) })
 //@     invariant len(files) >= 1 && files[len(files)-1] == opCkpt.DkvFileUri && same(opCkpt, jobCheckpoint.OperatorCheckpoints[idx0_])
-//@     invariant forall(0, idx_, len(files)-1, func(j int) bool { return copied(fs, spFile(filepath.Dir(savepointURI), files[j]), files[j]) })
-//@     exit copied(fs, spFile(filepath.Dir(savepointURI), opCkpt.DkvFileUri), opCkpt.DkvFileUri)
+//@     invariant forall(0, idx_, len(files)-1, func(j int) bool { return copied(fs, spFileR(uriDir(savepointURI), files[j]), files[j]) })
+//@     exit copied(fs, spFileR(uriDir(savepointURI), opCkpt.DkvFileUri), opCkpt.DkvFileUri)
 
-// The savepoint directory the restore derives from the savepoint URI is the one the artifact
-// was written to: both sides name a file's copy identically.
-//@ lemma savepointPathsAgree
-//@   property C14
-//@   forall savepointsPath string, seg string, file string
-//@   ensures spFile(filepath.Dir(filepath.Join(savepointsPath, seg, "job.savepoint")), file) == spFile(filepath.Join(savepointsPath, seg), file)
+// That the restore's names (scheme-aware: uriDir, storage.Join on the savepoint's URI) and the
+// artifact's names (filepath.Join on the location-relative savepoints path) denote the SAME
+// objects of the storage location is a fact about string functions and about how a location
+// resolves relative paths and URIs; it is not proved. An earlier axiom (filepath.Dir undoes Join)
+// "proved" it for scheme-less paths only and thereby hid a genuine defect on S3 URIs (fix bcbd9d5).
+// It is decided, up to its bound, by the bounded stand-in bounded/savepointrt: the savepoint round
+// trip through the real code on a local directory and on the repository's in-memory S3 service.
